@@ -5,7 +5,7 @@ from . import common
 
 NAME = "U-reach"
 TOOL = "verus"
-PROPS = ["C12", "C16"]
+PROPS = ["C12", "C16", "C05"]
 RLIMIT = 100
 TRUSTED = ["verus 0.2026.09.13 + z3", "A-vstd (HashMap/HashSet/Vec specs, HashMap::iter prophetic iterator)",
            "A-spec-hash-str: String obeys the hash-table key model; a &str key borrowed from a String key denotes the key with the same characters; String values with equal views are equal"]
@@ -79,6 +79,7 @@ pub struct GeneratorState<'a> {
     pub compiler_state: &'a CompilerState,
     pub functions_call_tree: HashMap<String, Vec<String>>,
     pub functions_actually_in_use: HashSet<String>,
+    pub functions_code: HashMap<String, u8>,       // R6: only the key set / size of the code table can matter here
 }
 """
 
@@ -172,7 +173,7 @@ def build(repo):
             res is Ok,
             final(self).functions_call_tree@ == old(self).functions_call_tree@,
             // the published set is exactly the set reachable from main and the interrupt handlers
-            forall|n: Seq<char>| inset(final(self).functions_actually_in_use@, n) <==> in_use_spec(old(self).functions_call_tree@, old(self).compiler_state.functions@, n), //@ C12:exact
+            forall|n: Seq<char>| inset(final(self).functions_actually_in_use@, n) <==> in_use_spec(old(self).functions_call_tree@, old(self).compiler_state.functions@, n), //@ C12,C05:exact
 """, expect_sig="fn compute_functions_actually_in_use(&mut self) -> Result<(), Error>")
     c.sub(r"for i in &self\.compiler_state\.functions \{", "for i in it: self.compiler_state.functions.iter() {", "R12 (`for x in &map` is `for x in map.iter()`: std IntoIterator for &HashMap)", expect=1)
     c.body_start("""
@@ -196,7 +197,7 @@ def build(repo):
                 all_closed(t, functions_actually_in_use@), //@ C12:closed-inv
                 forall|n: Seq<char>| inset(functions_actually_in_use@, n) ==> in_use_spec(t, funcs, n), //@ C12:sound-top
                 forall|k: String| funcs.contains_key(k) && funcs[k].interrupt ==> inset(functions_actually_in_use@, k@)
-                    || exists|j: int| it.index@ <= j < it.snapshot.remaining().len() && *(#[trigger] it.snapshot.remaining()[j]).0 == k, //@ C12:interrupts-visited
+                    || exists|j: int| it.index@ <= j < it.snapshot.remaining().len() && *(#[trigger] it.snapshot.remaining()[j]).0 == k, //@ C12,C05:interrupts-visited
                 forall|j: int| 0 <= j < it.snapshot.remaining().len() ==> funcs.contains_key(*(#[trigger] it.snapshot.remaining()[j]).0) && funcs[*(it.snapshot.remaining()[j]).0] == *it.snapshot.remaining()[j].1,
 """)
     c.at_block_start(r"for i in it: self\.compiler_state\.functions\.iter\(\)", """
